@@ -123,6 +123,15 @@ def run(ctx):
                       "steps": [{"t": "send", "c": "c1", "k": "auth", "u": "u1", "p": "p1", "a": False}, {"t": "recv"}, {"t": "upsend"},
                                 {"t": "extupdate", "u": "u1", "p": "p2"}, {"t": "recv"}, {"t": "free"}],
                       "expect_idle": {"u1": {"set": 2, "pw": "p2", "adm": False}}, "expect_prop": "C11", "expect_key": "acked-change-undone:external-writer"})
+    # the stale-upgrade interleaving once more, with a record whose last-change time is the current second: whatever the agent
+    # compares to find out that the record has changed since the login, the time stamp's resolution is one second
+    for i in range(2):
+        scenarios.append({"name": "stale-upgrade-same-second-%d" % i, "mode": "local", "default": 2, "files": up1, "passwords": af.PASSWORDS, "gated": True,
+                          "seed": 1, "forced": False, "filler": 0, "novalidate": True,
+                          "steps": [{"t": "stampnow", "u": "u1"}, {"t": "send", "c": "c2", "k": "auth", "u": "u1", "p": "p1", "a": False}, {"t": "recv"},
+                                    {"t": "send", "c": "c1", "k": "update", "u": "u1", "p": "p2", "a": False}, {"t": "upsend"}, {"t": "recv"}, {"t": "recv"},
+                                    {"t": "free"}],
+                          "expect_idle": {"u1": {"set": 2, "pw": "p2", "adm": False}}, "expect_prop": "C11", "expect_key": "acked-change-undone:same-second"})
     sims = af.simulated_scenarios(ctx, 40 if not thorough else 400)
     for i, sc in enumerate(sims):       # every second behaviour goes through the real frontends
         if i % 2:
